@@ -837,6 +837,103 @@ func checkMergeSymmetry(c *core.Ctx, prog *core.Prog) {
 			}
 		}
 		r.Pass(fmt.Sprintf("%s: operands are not written; no merged slice is dropped", name))
+		// (q) in mergeProperties the `required` lists of both members count for every property, whichever member
+		// declares it: each container that a property's Required flag is decided from (a set that is looked up, a
+		// list handed to slices.Contains) holds names of s1.Required AND of s2.Required
+		if name == "mergeProperties" {
+			operandOf := func(v ssa.Value) int { // which operand's Required list does the value come from: 0, 1, -1
+				seen := map[ssa.Value]bool{}
+				var walk func(v ssa.Value, d int) int
+				walk = func(v ssa.Value, d int) int {
+					if d > 8 || seen[v] {
+						return -1
+					}
+					seen[v] = true
+					switch x := v.(type) {
+					case *ssa.UnOp:
+						if fa, ok := x.X.(*ssa.FieldAddr); ok && fieldName(fa.X.Type(), fa.Field) == "Required" {
+							for i, p := range ps {
+								if fa.X == ssa.Value(p) {
+									return i
+								}
+							}
+						}
+						if ia, ok := x.X.(*ssa.IndexAddr); ok {
+							return walk(ia.X, d+1)
+						}
+						return walk(x.X, d+1)
+					case *ssa.Extract:
+						return walk(x.Tuple, d+1)
+					case *ssa.Next:
+						return walk(x.Iter, d+1)
+					case *ssa.Range:
+						return walk(x.X, d+1)
+					case *ssa.Index:
+						return walk(x.X, d+1)
+					case *ssa.Phi:
+						for _, e := range x.Edges {
+							if k := walk(e, d+1); k >= 0 {
+								return k
+							}
+						}
+					}
+					return -1
+				}
+				return walk(v, 0)
+			}
+			nDec := 0
+			for _, g := range core.AllFuncs(fn) {
+				for _, b := range g.Blocks {
+					for _, in := range b.Instrs {
+						prov := map[int]bool{}
+						what := ""
+						switch x := in.(type) {
+						case *ssa.Lookup:
+							// a set keyed by property names, filled in this function
+							mm, ok := x.X.(*ssa.MakeMap)
+							if !ok || !x.CommaOk {
+								continue
+							}
+							if mt, ok := mm.Type().Underlying().(*types.Map); !ok || mt.Elem().String() != "struct{}" {
+								continue
+							}
+							what = "a set"
+							for _, ref := range *mm.Referrers() {
+								if mu, ok := ref.(*ssa.MapUpdate); ok {
+									if k := operandOf(mu.Key); k >= 0 {
+										prov[k] = true
+									}
+								}
+							}
+							if len(prov) == 0 {
+								continue // not a set of required names
+							}
+						case *ssa.Call:
+							if !strings.HasPrefix(core.CalleeName(x.Common()), "slices.Contains") || len(x.Common().Args) < 1 {
+								continue
+							}
+							k := operandOf(x.Common().Args[0])
+							if k < 0 {
+								continue
+							}
+							what = "a list handed to slices.Contains"
+							prov[k] = true
+						default:
+							continue
+						}
+						nDec++
+						if prov[0] && prov[1] {
+							r.Pass("mergeProperties: required names of both members are consulted together")
+						} else {
+							r.Fail("merge-required-one-sided", c.Pos(in.Pos()), fmt.Sprintf("mergeProperties decides a property's requiredness from %s that holds the `required` names of one allOf member only: a property declared in one member and listed as required in the other (allOf: [$ref Base, {required: [name]}]) becomes optional", what))
+						}
+					}
+				}
+			}
+			if nDec == 0 {
+				r.Undecided("merge-required:none", c.Pos(fn.Pos()), "no place found where mergeProperties consults the `required` lists")
+			}
+		}
 		reads := []map[string]bool{{}, {}}
 		for i, p := range ps {
 			var visit func(v ssa.Value, depth int)
